@@ -107,7 +107,7 @@ class Field:
         """
         tilt = self.tilt + other.tilt
 
-        if self.size == 1 and other.size == 1:
+        if self.data.ndim == 0 and other.data.ndim == 0:
             data, offset = self._mul_scalar(other)
         else:
             # Note that _mul_array is optimized to also handle scalar * array
@@ -356,7 +356,8 @@ def _merge_shape(fields):
     """
     rmin, rmax, cmin, cmax = boundary(fields)
     # faster than np.any([rmin, rmax, cmin, cmax])
-    if rmin == 0 and rmax == 0 and cmin == 0 and cmax == 0:
+    if (rmin == 0 and rmax == 0 and cmin == 0 and cmax == 0
+            and all(f.data.ndim == 0 for f in fields)):
         return ()
     else:
         return rmax - rmin + 1, cmax - cmin + 1
@@ -369,7 +370,8 @@ def _merge_slices(fields):
     rmin, rmax, cmin, cmax = boundary(fields)
     out = []
     # faster than np.any([rmin, rmax, cmin, cmax])
-    if rmin == 0 and rmax == 0 and cmin == 0 and cmax == 0:
+    if (rmin == 0 and rmax == 0 and cmin == 0 and cmax == 0
+            and all(f.data.ndim == 0 for f in fields)):
         out.append(Ellipsis)
     else:
         for field in fields:
@@ -479,10 +481,10 @@ def _mul_broadcast(a_data, a_offset, b_data, b_offset):
     #a_data, a_offset = a.data, a.offset
     #b_data, b_offset = b.data, b.offset
     if a_data.shape != b_data.shape:
-        if a_data.size == 1:
+        if a_data.ndim == 0:
             a_data = np.broadcast_to(a_data, b_data.shape)
             a_offset = b_offset
-        if b_data.size == 1:
+        if b_data.ndim == 0:
             b_data = np.broadcast_to(b_data, a_data.shape)
             b_offset = a_offset
     return a_data, a_offset, b_data, b_offset
